@@ -409,6 +409,7 @@ _req_cache = {}
 
 
 _flow_cache = {}
+_slicer_cache = {}
 
 
 def fact_matches(rx_, fact):
@@ -465,7 +466,23 @@ def check_requires(ctx, prog, reqs, site=None):
                 continue
             f = site.func
             fl = _flow_cache.setdefault(f.path, Flow(f.body))
-            if not any_fact(rq[1], fl.facts_at(site.bb), f):
+            fs_ = list(fl.facts_at(site.bb))
+            if f.kind == "closure":
+                # facts that hold where the enclosing function builds the closure hold inside it (the adaptors run it before returning)
+                root_ = f.root()
+                rfl_ = _flow_cache.setdefault(root_.path, Flow(root_.body))
+                for blk_ in root_.body.blocks:
+                    if not blk_.cleanup and any(st_.k == "assign" and st_.rv.k == "aggr" and st_.rv.j.get("ak") == "closure" and
+                                                (st_.rv.j.get("path") == f.path or st_.rv.j.get("closure") == f.path or f.path in str(st_.rv.j)[:400]) for st_ in blk_.stmts):
+                        fs_.extend(rfl_.facts_at(blk_.i))
+            # the same facts with single-definition locals substituted (`offset < len` where `offset = sbn.checked_sub(off)@Some.0`)
+            sl_ = _slicer_cache.setdefault(f.path, Slicer(f.body))
+            for (a_, t_) in list(fs_):
+                if a_[0] in ("lt", "le", "eq"):
+                    b_ = (a_[0], sl_.expand(a_[1]), sl_.expand(a_[2]))
+                    if b_ != a_:
+                        fs_.append((b_, t_))
+            if not any_fact(rq[1], fs_, f):
                 probs.append("site no longer dominated by /%s/ (facts here: %s)" % (rq[1], "; ".join(show_fact(x) for x in fl.facts_at(site.bb))[:200]))
             continue
         key = repr(rq)
